@@ -30,7 +30,10 @@ BodyFailed(line) ==
    \cup (IF c.sec = "fail_read_multi" /\ bodyOK /\ line.verdict1 = "error" /\ "body" \in {line.parts1[i] : i \in DOMAIN line.parts1}
          THEN {"no_spurious_body_error"} ELSE {})
    \* accepted without applicable defaults, or defaults off: byte-for-byte what was received
-   \cup (IF ok /\ ~changed /\ line.after1 # line.sent THEN {"body_readable_unchanged"} ELSE {})
+   \* (byte-for-byte is promised when default-setting is skipped; with it on and nothing to add, the request must not
+   \* change -- a re-encoding of the same JSON value is the same request)
+   \cup (IF ok /\ ~changed /\ line.after1 # line.sent /\ (c.skip \/ ~("parsed1" \in DOMAIN line /\ Eq(line.parsed1, c.v)))
+         THEN {"body_readable_unchanged"} ELSE {})
    \* rejected: still readable in full (as received, or already completed with its defaults)
    \cup (IF ~ok /\ line.after1 # line.sent /\ ~("parsed1" \in DOMAIN line /\ ~c.skip /\ Eq(line.parsed1, WithDefaults(c.schema, c.v)))
          THEN {"body_readable_in_full"} ELSE {})
